@@ -9,7 +9,7 @@ class ChannelCheck(PropCheck):
     extra_modules = ("SigHook.Props.Packed",)
     assumptions = [
         "memory model: view-based operational semantics of the Relaxed/Acquire/Release fragment (Model/Channel.lean), trusted to over-approximate Rust's model for this program (every store to the two atomics is an RMW); no load-buffering / out-of-thin-air",
-        "the scheduler drives the real code through SC interleavings plus injected spurious compare_exchange_weak failures; stale relaxed reads are covered by the theorems, not by the runs (x86 cannot exhibit them)",
+        "the scheduler drives the real code through SC interleavings plus injected spurious compare_exchange_weak failures; stale relaxed reads are covered by the theorems and, on the implementation, by the Miri stage (harness-miri: the unshimmed channel under Miri's weak-memory emulation and data-race detector, many scheduler seeds); the scheduled runs on x86 cannot exhibit them",
         "a send nested in a signal handler is modelled as an additional thread (more interleavings, fewer happens-before edges)",
     ]
 
@@ -91,16 +91,29 @@ class ChannelCheck(PropCheck):
             failures.append({"kind": "violation" if mine else "disagreement", "key": self.pid + ":long",
                              "what": "sequential history (5 sends, %d sends onto the full channel, drain; then %d send/recv rounds): expected the first five values in order and every round to hand its value back, got `%s`" % (n_long, n_long, bad),
                              "payload": {"long": long_lines, "n": n_long}})
+        # the real channel, unshimmed, under Miri: a C11 interpreter with weak-memory emulation (a relaxed load may
+        # return an older value) and a data-race detector working from the orderings the code declares - the one
+        # place where stale reads are exercised on the implementation and not only in the model. C07 always (six
+        # seeds in the quick tier), the others in the thorough tier.
+        nmiri = 0
+        if self.pid == "C07" or tier != "quick":
+            nmiri, mf, note = ch.miri_stage(self.pid, tier)
+            dist["miri"] = note
+            failures += mf
         uniq = {}
         for f in failures:
             uniq.setdefault(f["key"], f)
-        return {"evaluations": len(results) + len(timpl), "distinct_nontrivial": nontrivial,
-                "rule": "random scenarios (2-4 threads of send/recv bursts up to 7, sends nested on threads that are mid-send/recv as a signal handler would be) on the real Channel under the deterministic scheduler with injected spurious weak-CAS failures; every atomic operation (site, orderings, values) and cell access compared with the Lean model on the same schedule; FIFO / ownership / vector-clock race / drop-once / step-bound monitors on the implementation trace; plus the exhaustive get/set table (2^16 x 5 x 8) by checksum; plus sequential long histories (an overflowing burst of tens of thousands of sends, then as many send/recv rounds) on channels built by new() and by Default; 40% of the scheduled scenarios use a Default-built channel; non-trivial = a value was received or a spurious failure was injected",
+        return {"evaluations": len(results) + len(timpl) + nmiri, "distinct_nontrivial": nontrivial,
+                "rule": "random scenarios (2-4 threads of send/recv bursts up to 7, sends nested on threads that are mid-send/recv as a signal handler would be) on the real Channel under the deterministic scheduler with injected spurious weak-CAS failures; every atomic operation (site, orderings, values) and cell access compared with the Lean model on the same schedule; FIFO / ownership / vector-clock race / drop-once / step-bound monitors on the implementation trace; plus the exhaustive get/set table (2^16 x 5 x 8) by checksum; plus the unshimmed channel under Miri (C11 interpreter: weak-memory emulation, data-race detector; two senders / two receivers / drop with values queued; per-producer order, no duplicates, every value dropped once) for a range of scheduler seeds; plus sequential long histories (an overflowing burst of tens of thousands of sends, then as many send/recv rounds) on channels built by new() and by Default; 40% of the scheduled scenarios use a Default-built channel; non-trivial = a value was received or a spurious failure was injected",
                 "samples": [{"scenario": results[0]["scenario"], "schedule": " ".join(results[0]["schedule"]), "trace": results[0]["impl"][:14]}] if results else [],
                 "traces_validated_against_impl": len(results), "steps_compared": steps, "distribution": dist,
                 "table_rows": 65536 * 5 * 9, "failures": list(uniq.values())}
 
     def replay(self, payload):
+        if payload.get("miri"):
+            k = payload.get("seed") or 0
+            ok, text = ch.miri_run("%d..%d" % (k, k + 1))
+            return not ok, text[-3000:]
         if "long" in payload:
             import subprocess
             p = subprocess.run([core.HARNESS_BIN, "channel-long", str(payload["n"])], capture_output=True, text=True, timeout=300)
